@@ -295,3 +295,47 @@ func singleStoreOfCaptured(f *ssa.Function, fv *ssa.FreeVar) ssa.Value {
 	}
 	return val
 }
+
+// roundDigitValue: helper.RoundDigits maps every element through RoundDigit(n, d), whose slice
+// model is round-half-away-from-zero at d decimal digits: math.Round(n * 10^d) / 10^d. The SSA
+// term of RoundDigit's result over its parameters must be exactly that (10^d spelled math.Pow or
+// math.Pow10); Floor(x+0.5), Trunc, RoundToEven … differ on negative ties or halves.
+func (c *Ctx) roundDigitValue() {
+	run := c.Run
+	fi := c.fn("helper", "", "RoundDigit")
+	if fi == nil {
+		return
+	}
+	fn := c.ssaFunc(fi)
+	why := ""
+	got := ""
+	if fn == nil {
+		why = "no SSA form (undecided, fails closed)"
+	} else {
+		n := 0
+		for _, b := range fn.Blocks {
+			for _, in := range b.Instrs {
+				r, ok := in.(*ssa.Return)
+				if !ok || len(r.Results) != 1 {
+					continue
+				}
+				n++
+				var idx []string
+				got = ssaTerm(r.Results[0], &idx, 0)
+				norm := strings.ReplaceAll(got, "math.Pow10(param#1)", "math.Pow(10, param#1)")
+				norm = strings.ReplaceAll(norm, "conv(", "(")
+				want1 := "(math.Round((math.Pow(10, param#1) * param#0)) / math.Pow(10, param#1))"
+				if norm != want1 {
+					why = "the value returned is " + got + ", not math.Round(n * 10^d) / 10^d"
+				}
+			}
+		}
+		if n != 1 && why == "" {
+			why = "RoundDigit does not have exactly one return (undecided, fails closed)"
+		}
+	}
+	run.Oblige(why == "")
+	if why != "" {
+		c.violate("helper-model/value", "helper.RoundDigit", short(why, 80), fi.Decl.Pos(), "RoundDigit must round half away from zero at d digits (math.Round), for negative values and ties too: "+why)
+	}
+}
